@@ -70,7 +70,8 @@ def run_check(prop, tier, verdict):
             nseeds = 1 if tier == "quick" else 6
             for k in range(nseeds):
                 jobs.append(dict(exe=exe, build=build_name, cfg=cfg, mode="rand",
-                                 args=["--seed", str(seed * 1000 + len(jobs) + 1), "--cases", "20000" if tier == "quick" else "150000"]))
+                                 args=["--seed", str(seed * 1000 + len(jobs) + 1), "--cases",
+                                       str((20000 if tier == "quick" else 150000) // (12 if cfg == "u16_nt_n16" else 1))]))   # 16 k tracked elements per case: fewer cases
     for i, j in enumerate(jobs):
         tag = "%s-%s-%s-%d" % (j["build"], j["cfg"], j["mode"], i)
         j.update(tag=tag, stats=os.path.join(outdir, tag + ".json"), replay=os.path.join(outdir, tag + ".replay"),
